@@ -14,6 +14,19 @@ var _ backoff.BackOff
 
 // Contracts for package bmc (machine-checked by /verif/engine; see /verif/DESIGN.md).
 
+// ---- bmc.go: the outcome of a command folded into one error
+//
+// nil exactly for a command that was answered (no transport error) with the normal completion code;
+// a transport error is passed on unchanged. Every caller's use of the result is checked by the
+// package-wide obligation bmc:flow:command-errors-are-propagated (C11).
+
+//@ func ValidateResponse
+//@ props C10 C11
+//@ option nilable:err
+//@ assigns nothing
+//@ ensures [C11.validate] (result == nil) == (err == nil && c == ipmi.CompletionCodeNormal)
+//@ ensures [C11.validate-err] err != nil ==> result == err
+
 // ---- cipher_suites.go
 
 //@ func parseCipherSuiteRecordData
